@@ -20,9 +20,11 @@ def type_ok_scalar(ty, v):
     if ty == "bytes":
         return isinstance(v, bytes)
     if ty == "enum":
-        return isinstance(v, betterproto.Enum) and -2**31 <= int(v) < 2**31
-    lo, hi = bpgen.INT_RANGE[ty]
-    return isinstance(v, int) and not isinstance(v, bool) and lo <= v <= hi
+        return isinstance(v, betterproto.Enum)
+    # the property demands the declared Python *type* (and that the message re-encodes, checked
+    # separately); a uint32 varint carrying more than 32 bits stays an int (false alarm of
+    # an earlier version of this oracle, which also demanded the proto range)
+    return isinstance(v, int) and not isinstance(v, bool)
 
 
 def type_ok_kind(kind, v, schema, classes):
